@@ -1,2 +1,4 @@
+import CnvVerif.Props.C01
+import CnvVerif.Props.C02
 import CnvVerif.Props.C06
 import CnvVerif.Props.C07
